@@ -13,7 +13,8 @@ pub static DEF: CheckDef = CheckDef {
         "interleavings are explored at poll granularity of a single-threaded executor (exact for this code base's concurrency model)",
         "request futures are always awaited to completion; only values are dropped at arbitrary points",
         "a call is request-class only if its service is gone or has a server loop waiting in next_call that does not deliberately hold the call's promise",
-        "class `prog` excludes refused channel claims by construction (known finding F2); class `claims` and VAPI_EXCLUDE_F2 control the rest",
+        "every class may contain refused and cancelled channel claims, replies dropped around a shutdown, listeners polled after destroy, BrokerHandle::shutdown() with requests in flight and client-initiated shutdowns racing with it; the classes claims / late-abort / listener-after-destroy / small-credit only aim at one shape more often; VAPI_EXCLUDE_F2..F9 take a shape out again (opt-in, the corresponding floors then fail)",
+        "cancelling an in-flight request is generated for claim() only (its early set_claimed exists for that case); all other request futures are awaited to completion",
     ],
     plan,
     case,
@@ -24,14 +25,33 @@ pub static DEF: CheckDef = CheckDef {
         ("bounded-transport", 0.50),
         ("drop-with-inflight", 0.25),
         ("cross-client-race", 0.18),
-        ("proto-1.14", 0.25),
+        ("proto-1.14", 0.20),
+        ("proto-1.15", 0.03),
+        ("proto-1.16", 0.03),
+        ("proto-1.17", 0.03),
+        ("proto-1.18", 0.03),
+        ("proto-1.19", 0.03),
         ("final:drop-all", 0.25),
         ("final:broker-shutdown-connection", 0.10),
         ("chan:items-flowed", 0.15),
-        ("call:answered", 0.15),
+        ("call:answered", 0.12),
         ("cross-client-channel", 0.20),
         ("event:received", 0.01),
         ("bus-event:received", 0.03),
+        // shapes around the repaired findings F2/F5/F6/F7 and the open ones F8/F9/F10
+        ("claim-refused", 0.12),
+        ("two-claimants", 0.06),
+        ("claim-cancelled", 0.03),
+        ("reply-dropped-during-shutdown", 0.04),
+        ("listener-polled-after-destroy", 0.05),
+        ("kick+idle-early", 0.06),
+        ("broker-shutdown", 0.03),
+        ("broker-shutdown-in-flight", 0.015),
+        ("client-shutdown-races-broker-shutdown", 0.008),
+        // client-level half of C05: credit top-up paths of Sender/Receiver
+        ("credit-topup:cap<=4", 0.05),
+        ("credit-topup:cap<=4:bounded<=2", 0.03),
+        ("credit:cap=1", 0.04),
     ],
     extra: None,
     extra_coverage: None,
@@ -43,7 +63,7 @@ fn plan(t: Tier) -> Vec<ClassPlan> {
         Tier::Thorough => 20,
     };
     vec![
-        ClassPlan { class: "prog", cases: 55_000 * k, min_len: 24, max_len: 420 },
+        ClassPlan { class: "prog", cases: 45_000 * k, min_len: 24, max_len: 420 },
         ClassPlan { class: "claims", cases: 8_000 * k, min_len: 24, max_len: 300 },
         ClassPlan { class: "late-abort", cases: 4_000 * k, min_len: 24, max_len: 300 },
         ClassPlan { class: "listener-after-destroy", cases: 3_000 * k, min_len: 24, max_len: 300 },
@@ -164,6 +184,7 @@ fn run_inner(p: &Program) -> Result<Outcome, Outcome> {
         cc.shutdown_requested.set(true);
         match c.final_mode {
             FinalMode::Shutdown => {
+                cc.self_shutdown.set(true);
                 if let Some(h) = cc.h() {
                     h.shutdown();
                 }
@@ -255,6 +276,11 @@ fn run_inner(p: &Program) -> Result<Outcome, Outcome> {
     if p.clients.iter().any(|c| c.proto == Proto::V14) {
         classes.push("proto-1.14");
     }
+    for (m, label) in [(15u8, "proto-1.15"), (16, "proto-1.16"), (17, "proto-1.17"), (18, "proto-1.18"), (19, "proto-1.19")] {
+        if p.clients.iter().any(|c| c.proto == Proto::Capped(m)) {
+            classes.push(label);
+        }
+    }
     if p.clients.iter().any(|c| c.final_mode == FinalMode::DropAll) {
         classes.push("final:drop-all");
     }
@@ -270,6 +296,8 @@ fn run_inner(p: &Program) -> Result<Outcome, Outcome> {
         ("excluded:f5", "excluded:f5"),
         ("excluded:f6", "excluded:f6"),
         ("excluded:f7", "excluded:f7"),
+        ("excluded:f8", "excluded:f8"),
+        ("excluded:f9", "excluded:f9"),
         ("listener-polled-after-destroy", "listener-polled-after-destroy"),
         ("reply-dropped-during-shutdown", "late-abort"),
         ("claim-cancelled", "claim-cancelled"),
